@@ -7,6 +7,7 @@
 package main
 
 import (
+	"encoding/json"
 	"bufio"
 	"bytes"
 	"errors"
@@ -42,6 +43,21 @@ const chunkPages = cluster.CHUNKSIZE / pageSize
 // ------------------------------------------------------------------------------------ symbols
 
 func recSymbols(b []byte) []uint32 {
+	if len(b) > 2048 {
+		// synthetic big records: one symbol per 256-byte block (the protocol does not look inside)
+		n := (len(b) + 255) / 256
+		s := make([]uint32, n)
+		for i := 0; i < n; i++ {
+			end := (i + 1) * 256
+			if end > len(b) {
+				end = len(b)
+			}
+			h := fnv.New32a()
+			h.Write(b[i*256 : end])
+			s[i] = h.Sum32() >> 1
+		}
+		return s
+	}
 	s := make([]uint32, len(b))
 	for i, x := range b {
 		s[i] = uint32(x)
@@ -239,6 +255,10 @@ var transitions = []transition{
 	{"replace-all-2", []int{0, 1}, []int{2, 3}},
 }
 
+// one node holding everything, three new servers: three destinations for one sender (not in the
+// table above: the scenario numbering of the other plans stays as it was)
+var growOneToFour = transition{"grow-1-4", []int{0}, []int{0, 1, 2, 3}}
+
 type point struct {
 	id  uuid.UUID
 	n   int64
@@ -353,7 +373,7 @@ func userPlan() models.UserPlan {
 }
 
 // buildBase creates real data through the cluster API on the old server set.
-func (h *harness) buildBase(sc int, tr transition, nUsers, colsPerUser, ptsPerCol int, bigPad int, synth []int) (*base, error) {
+func (h *harness) buildBase(sc int, tr transition, nUsers, colsPerUser, ptsPerCol int, bigPad int, synth []int, synthRecs [2]int) (*base, error) {
 	b := &base{tr: tr, dir: filepath.Join(h.tmp, fmt.Sprintf("base%d", sc)), byHost: map[string]string{}, where: map[string]string{}, rowner: map[string]string{}, fowner: map[string]string{}, synth: map[string]bool{}}
 	ports := h.pickPorts(sc, 4)
 	for i := 0; i < 4; i++ {
@@ -458,6 +478,61 @@ func (h *harness) buildBase(sc int, tr transition, nUsers, colsPerUser, ptsPerCo
 			return nil, err
 		}
 		b.synth[key] = true
+	}
+	// ---- synthetic collection records: a SKEWED postage. One destination gets synthRecs[0] records of
+	// synthRecs[1] bytes (its request takes long to encode and send), every other destination a handful
+	// of small ones (sent, confirmed and deleted locally while the big request is still being written).
+	// Records are opaque to the protocol; what is shipped must be what was stored.
+	if synthRecs[0] > 0 {
+		src := b.specs[tr.old[0]]
+		db, err := diskstore.Open(filepath.Join(src.root, "nodedb.bbolt"))
+		if err != nil {
+			return nil, err
+		}
+		err = db.Write(func(bm diskstore.BucketManager) error {
+			bk, err := bm.Get(cluster.USERCOLSBUCKETKEY)
+			if err != nil {
+				return err
+			}
+			big := ""
+			per := map[string]int{}
+			for i := 0; i < 50*synthRecs[0]; i++ {
+				user := fmt.Sprintf("zsynth%06d", i)
+				d := cluster.RendezvousHash(user, b.newH, 1)[0]
+				if d == src.host() {
+					continue
+				}
+				if big == "" {
+					big = d
+				}
+				limit, size := 6, 300
+				if d == big {
+					limit, size = synthRecs[0], synthRecs[1]
+				}
+				if per[d] >= limit {
+					if per[big] >= synthRecs[0] {
+						break
+					}
+					continue
+				}
+				per[d]++
+				val := make([]byte, size)
+				for j := 0; j < size; j += 8 {
+					x := h.rng.U64()
+					for t := 0; t < 8 && j+t < size; t++ {
+						val[j+t] = byte(x >> (8 * t))
+					}
+				}
+				if err := bk.Put([]byte(user+cluster.DBDELIMITER+"col00"), val); err != nil {
+					return err
+				}
+			}
+			return nil
+		})
+		db.Close()
+		if err != nil {
+			return nil, err
+		}
 	}
 	// ---- snapshot
 	b.orig = nodeState{recs: map[string][]byte{}, files: map[string][]byte{}}
@@ -1700,6 +1775,7 @@ func (h *harness) runAll(extra map[string]any, only int) {
 		users, cols, pts int
 		bigPad           int
 		synth            []int
+		synthRecs        [2]int
 		maxFaults, kills int
 		maxIdx           int
 		conc             bool
@@ -1728,6 +1804,24 @@ func (h *harness) runAll(extra map[string]any, only int) {
 		plans = append(plans, plan{tr: transitions[1], users: 2, cols: 1, pts: 3, synth: []int{8*MiB + pageSize, 8*MiB + 1, 16 * MiB, 16*MiB + pageSize, 8*MiB + 2*pageSize, 24*MiB + 1, 8 * MiB, 9 * MiB}, maxFaults: 6, kills: 1, maxIdx: 3, conc: true})
 		plans = append(plans, plan{tr: transitions[6], users: 2, cols: 1, pts: 3, synth: []int{8*MiB + pageSize, 16*MiB + 1, 16 * MiB, 9 * MiB, 8*MiB + 1, 10 * MiB}, maxFaults: 4, kills: 1, maxIdx: 3, conc: true})
 	}
+	// the same directly on four real nodes, judged by the oracle (byte identity at the owners)
+	if only < 0 {
+		trials := 3
+		if h.tier == "thorough" {
+			trials = 10
+		}
+		for t := 0; t < trials; t++ {
+			h.rng = vh.NewRng(h.seed*6700417 + uint64(t)*2147483647 + 11)
+			h.skewProbe(t, 1500, 16000)
+		}
+	}
+	// a skewed postage of collection records: one large request among small ones (last: the scenario
+	// numbers and random streams of the plans above are unchanged)
+	if h.tier == "quick" {
+		plans = append(plans, plan{tr: growOneToFour, users: 1, cols: 1, pts: 2, synthRecs: [2]int{300, 16000}, maxFaults: 0, kills: 0, maxIdx: 1})
+	} else {
+		plans = append(plans, plan{tr: growOneToFour, users: 2, cols: 1, pts: 2, synthRecs: [2]int{1200, 16000}, maxFaults: 2, kills: 0, maxIdx: 1})
+	}
 	for sc, p := range plans {
 		if only >= 0 && sc != only {
 			// keep the random stream aligned with a full run
@@ -1737,7 +1831,7 @@ func (h *harness) runAll(extra map[string]any, only int) {
 		h.crng = vh.NewRng(h.seed*2654435761 + uint64(sc)*40503 + 97)
 		h.forceConc = p.conc
 		uuid.SetRand(&seededReader{r: vh.NewRng(h.seed*15485863 + uint64(sc)*32452843 + 5)})
-		b, err := h.buildBase(sc, p.tr, p.users, p.cols, p.pts, p.bigPad, p.synth)
+		b, err := h.buildBase(sc, p.tr, p.users, p.cols, p.pts, p.bigPad, p.synth, p.synthRecs)
 		if err != nil {
 			panic(fmt.Errorf("scenario %d (%s): %w", sc, p.tr.kind, err))
 		}
@@ -1862,9 +1956,39 @@ func runReplay(self, path string) {
 			break
 		}
 	}
+	isSkew := false
+	for _, l := range strings.Split(string(data), "\n") {
+		if strings.HasPrefix(l, "skew trial=") {
+			isSkew = true
+			for _, t := range strings.Fields(l) {
+				if strings.HasPrefix(t, "seed=") {
+					seed, _ = strconv.ParseUint(strings.TrimSuffix(t[5:], ":"), 10, 64)
+				}
+			}
+		}
+	}
 	tmp, _ := os.MkdirTemp("", "c14-replay-")
 	defer os.RemoveAll(tmp)
 	runInner(self, seed, "-seed", strconv.FormatUint(seed, 10), "-tier", tier, "-out", tmp)
+	if isSkew {
+		// the skewed-postage probe is judged by the oracle: run it again and report what the oracle says
+		var st struct {
+			Oracle []struct{ Signature, What string } `json:"oracle_failures"`
+		}
+		raw, _ := os.ReadFile(filepath.Join(tmp, "stats.json"))
+		json.Unmarshal(raw, &st)
+		n := 0
+		for _, f := range st.Oracle {
+			if strings.HasPrefix(f.Signature, "skew:") {
+				fmt.Println(f.Signature + ": " + f.What)
+				n++
+			}
+		}
+		if n == 0 {
+			fmt.Println("skew: every record arrived at its owner unchanged in every trial")
+		}
+		return
+	}
 	ops, _ := os.ReadFile(filepath.Join(tmp, "ops.txt"))
 	impl, _ := os.ReadFile(filepath.Join(tmp, "impl.txt"))
 	opl := strings.Split(strings.TrimSpace(string(ops)), "\n")
